@@ -108,6 +108,7 @@ class World:
         self.damaged: set[str] = set()     # keys whose loose copy the harness damaged and that were not re-added yet
         self.dups: set[str] = set()        # keys with stray files in duplicates/ planted by the harness
         self.uncertain: set[str] = set()   # keys targeted by a deletion that raised half-way (may or may not exist)
+        self.deleted_ok: set[str] = set()  # keys whose deletion returned normally and that were not stored again since
 
     # -- handles -----------------------------------------------------------------------------------------------
     @property
@@ -255,6 +256,7 @@ class World:
                 m.packed -= set(req)
                 self.dups -= set(req)
                 self.damaged -= set(req)
+                self.deleted_ok |= set(req)
             elif kind == 'loosen':
                 k = m.key(op[1])
                 if k in m.present():
@@ -337,7 +339,11 @@ class World:
                 self._query(res, op[1], op[2] if len(op) > 2 else None)
             else:
                 raise ValueError(f'unknown operation {op!r}')
+            self.deleted_ok -= m.present()
         except Exception as exc:  # pylint: disable=broad-except
+            self.deleted_ok -= m.present()
+            if kind != 'delete' and not (kind == 'on' and op[2][0] == 'delete'):
+                self.deleted_ok.clear()      # an operation that raised may have stored some of its objects
             res.exc = exc
             res.fail('unexpected-exception', f'{kind} raised {type(exc).__name__}: {exc}')
             inner = op[2] if kind == 'on' else op
